@@ -251,9 +251,14 @@ theorem en_fork {s : State} {n f} (h : enabled s (.fork n f) = true) :
   · exact absurd hp d
   · exact d
 
+theorem en_forkorder' {s : State} {n l} (h : enabled s (.forkorder n l) = true) :
+    s.phase = .loading ∧ isSubNodup l (s.forksOf n) = true ∧
+    ∀ f ∈ s.forksOf n, f ∈ l ∨ forkEmpty s n f = true := by
+  simpa [enabled, guards, and_assoc] using h
+
 theorem en_forkorder {s : State} {n l} (h : enabled s (.forkorder n l) = true) :
-    s.phase = .loading ∧ isSubNodup l (s.forksOf n) = true := by
-  simpa [enabled, guards] using h
+    s.phase = .loading ∧ isSubNodup l (s.forksOf n) = true :=
+  ⟨(en_forkorder' h).1, (en_forkorder' h).2.1⟩
 
 theorem en_nodestate {s : State} {n st} (h : enabled s (.nodestate n st) = true) :
     s.phase ≠ .crashed ∧ n < s.nodes.length ∧ st = nodeState s n := by
